@@ -37,8 +37,16 @@ public:
     auto binvar=indc.get_binary_var();
     const auto& body = indc.get_constraint().GetBody();
     assert(body.is_quadratic());
-    auto auxvar = GetMC().AssignResultVar2Args(  // auxvar = body + 0.0
-          QuadraticFunctionalConstraint{ {body, 0.0} } );
+    /// auxvar (<=/==/>=) body, via an own constraint of the same sense.
+    /// Not via a QuadraticFunctionalConstraint: an equal one can pre-exist
+    /// (e.g., from an objective) and have been converted already
+    /// in the opposite context only.
+    auto bnt = GetMC().ComputeBoundsAndType(body);
+    auto auxvar = int( GetMC().AddVar(bnt.lb(), bnt.ub(), bnt.type()) );
+    auto lt = body.GetLinTerms();
+    lt.add_term(-1.0, auxvar);
+    GetMC().AddConstraint( QuadCon{ { std::move(lt), body.GetQPTerms() },
+                                    0.0 } );         // body - auxvar (<=/==/>=) 0
     GetMC().AddConstraint( IndicatorLin{binvar, indc.get_binary_value(),
                                         LinCon{ { {1.0}, {auxvar} },
                                           indc.get_constraint().rhs() }} );
